@@ -244,8 +244,8 @@ theorem process_excl {m now : Nat} (P : Params) (f : Fetch) (revOnly : Bool) (cu
   unfold process
   simp only
   have := foldl_procFetched_excl (m := m) (now := now)
-    (stage cur tomb f.signers (sortByTag (fetchedMap f.keys))) revOnly
-    (sortByTag (fetchedMap f.keys)) { cur := cur, tomb := tomb } h
+    (stage cur tomb f (sortByTag (fetchedMap f.all))) revOnly
+    (sortByTag (fetchedMap f.all)) { cur := cur, tomb := tomb } h
   split
   · exact this
   · exact ⟨this.1, holdDown_noLive P _ now _ this.2⟩
@@ -432,8 +432,8 @@ theorem process_keep {m now : Nat} (P : Params) (f : Fetch) (revOnly : Bool) (cu
   unfold process
   simp only
   have := foldl_procFetched_keep (m := m) (now := now)
-    (stage cur tomb f.signers (sortByTag (fetchedMap f.keys))) revOnly
-    (sortByTag (fetchedMap f.keys)) { cur := cur, tomb := tomb }
+    (stage cur tomb f (sortByTag (fetchedMap f.all))) revOnly
+    (sortByTag (fetchedMap f.all)) { cur := cur, tomb := tomb }
   split
   · exact this
   · exact ⟨fun h => holdDown_hasMarker P _ now _ (this.1 h), this.2⟩
@@ -443,8 +443,8 @@ theorem process_revInv {now : Nat} (P : Params) (f : Fetch) (revOnly : Bool) (cu
   unfold process
   simp only
   have := foldl_procFetched_revInv (now := now)
-    (stage cur tomb f.signers (sortByTag (fetchedMap f.keys))) revOnly
-    (sortByTag (fetchedMap f.keys)) { cur := cur, tomb := tomb } (by intro x hx; cases hx)
+    (stage cur tomb f (sortByTag (fetchedMap f.all))) revOnly
+    (sortByTag (fetchedMap f.all)) { cur := cur, tomb := tomb } (by intro x hx; cases hx)
   split
   · exact this
   · intro x hx
@@ -489,7 +489,8 @@ theorem autoTA_none (P : Params) (cfg : List Key) (d : Disk) (live : List Key)
       { live := if !live.isEmpty then candidate (prepare cfg (readState d live fl now) tomb0 now).1 else live,
         outcome := .verr,
         cand := candidate (prepare cfg (readState d live fl now) tomb0 now).1,
-        curFinal := (prepare cfg (readState d live fl now) tomb0 now).1 } := by
+        curFinal := (prepare cfg (readState d live fl now) tomb0 now).1,
+        pre := some (if !live.isEmpty then candidate (prepare cfg (readState d live fl now) tomb0 now).1 else live) } := by
   unfold autoTA
   simp only [hrt]
 
@@ -859,9 +860,9 @@ theorem foldl_procFetched_fwd (staged : List Key) (revOnly : Bool) (now : Nat) (
 
 /-- what a staged key is: a REVOKE-flagged fetched key that validly self-signed the set. -/
 theorem staged_spec (cur : List TA) (tomb : List Nat) (f : Fetch) (k : Key)
-    (h : (stage cur tomb f.signers (sortByTag (fetchedMap f.keys))).contains k = true) :
-    k ∈ f.keys ∧ signedBy f.signers k = true := by
-  have hk : k ∈ stage cur tomb f.signers (sortByTag (fetchedMap f.keys)) := by simpa using h
+    (h : (stage cur tomb f (sortByTag (fetchedMap f.all))).contains k = true) :
+    k ∈ f.all ∧ selfSigned f k = true := by
+  have hk : k ∈ stage cur tomb f (sortByTag (fetchedMap f.all)) := by simpa using h
   unfold stage at hk
   obtain ⟨h1, h2⟩ := List.mem_filter.mp hk
   refine ⟨(mem_fetchedMap k _ ((mem_sortByTag k _).mp h1)).1, ?_⟩
@@ -977,10 +978,10 @@ theorem foldl_procFetched_revoked (staged : List Key) (revOnly : Bool) (now : Na
 
 /-- everything `stageRevocationSelfSignatures` checked for a staged key. -/
 theorem staged_full (cur : List TA) (tomb : List Nat) (f : Fetch) (k : Key)
-    (h : (stage cur tomb f.signers (sortByTag (fetchedMap f.keys))).contains k = true) :
-    k ∈ f.keys ∧ k.revoke = true ∧ signedBy f.signers k = true ∧
+    (h : (stage cur tomb f (sortByTag (fetchedMap f.all))).contains k = true) :
+    k ∈ f.all ∧ k.revoke = true ∧ selfSigned f k = true ∧
     ∃ old ∈ cur, isTrusted old.st = true ∧ sameKeyExceptRevoke old.key k = true := by
-  have hk : k ∈ stage cur tomb f.signers (sortByTag (fetchedMap f.keys)) := by simpa using h
+  have hk : k ∈ stage cur tomb f (sortByTag (fetchedMap f.all)) := by simpa using h
   unfold stage at hk
   obtain ⟨h1, h2⟩ := List.mem_filter.mp hk
   unfold stageOne at h2
@@ -995,12 +996,12 @@ theorem staged_full (cur : List TA) (tomb : List Nat) (f : Fetch) (k : Key)
 
 theorem process_revoked (P : Params) (f : Fetch) (revOnly : Bool) (now : Nat) (cur : List TA) (tomb : List Nat) :
     ∀ x ∈ (process P f revOnly now cur tomb).revoked,
-      ∃ k ∈ f.keys, k.revoke = true ∧ signedBy f.signers k = true ∧ k.mat = x ∧
+      ∃ k ∈ f.all, k.revoke = true ∧ selfSigned f k = true ∧ k.mat = x ∧
         ∃ old ∈ cur, isTrusted old.st = true ∧ sameKeyExceptRevoke old.key k = true := by
   intro x hx
   have hrev : (process P f revOnly now cur tomb).revoked =
-      ((sortByTag (fetchedMap f.keys)).foldl
-        (procFetched (stage cur tomb f.signers (sortByTag (fetchedMap f.keys))) revOnly now)
+      ((sortByTag (fetchedMap f.all)).foldl
+        (procFetched (stage cur tomb f (sortByTag (fetchedMap f.all))) revOnly now)
         { cur := cur, tomb := tomb }).revoked := by
     unfold process
     simp only
@@ -1010,6 +1011,24 @@ theorem process_revoked (P : Params) (f : Fetch) (revOnly : Bool) (now : Nat) (c
   · cases h
   · obtain ⟨h1, h2, h3, old, h4, h5, h6⟩ := staged_full cur tomb f k hc
     exact ⟨k, h1, h2, h3, hm, old, h4, h5, h6⟩
+
+/-- `k` may authenticate a fetched answer: a SEP key of the candidate set
+(Valid or Missing anchor, never tombstoned), or a REVOKE-flagged DNSKEY of the
+answer that is such an anchor with only the REVOKE bit toggled. -/
+def Anchoring (cand : List Key) (f : Fetch) (k : Key) : Prop :=
+  (k ∈ cand ∧ k.sep = true) ∨
+  (k ∈ f.all ∧ k.revoke = true ∧ ∃ c ∈ cand, c.sep = true ∧ sameKeyExceptRevoke c k = true)
+
+/-- `coveredBy`: every RRset of the answer section has a valid RRSIG by a key of `ks`. -/
+theorem coveredBy_spec (f : Fetch) (ks : List Key) (h : coveredBy f ks = true) :
+    (f.keys ≠ [] → ∃ k ∈ ks, signedBy f.signers k = true) ∧
+    ∀ e ∈ f.extras, ∃ k ∈ ks, signedBy e.signers k = true := by
+  unfold coveredBy at h
+  simp only [Bool.and_eq_true, Bool.or_eq_true, List.all_eq_true] at h
+  refine ⟨fun hne => ?_, fun e he => List.any_eq_true.mp (h.2 e he)⟩
+  rcases h.1 with h1 | h1
+  · exact absurd (List.isEmpty_iff.mp h1) hne
+  · exact List.any_eq_true.mp h1
 
 /-! ## Specification vocabulary of `Props/C09.lean` and the lemmas about it
 
@@ -1058,10 +1077,10 @@ theorem histOK_append (P : Params) (cfg : List Key) (s : Sys) (e1 e2 : List Ev) 
 `c` (same material, only the REVOKE bit differs) is in the set and validly
 self-signed it. -/
 def RevocationOf (f : Fetch) (c : Key) : Prop :=
-  ∃ k' ∈ f.keys, k'.revoke = true ∧ sameKeyExceptRevoke c k' = true ∧ signedBy f.signers k' = true
+  ∃ k' ∈ f.all, k'.revoke = true ∧ sameKeyExceptRevoke c k' = true ∧ selfSigned f k' = true
 
 /-- the key tags `kskFetched` is indexed by. -/
-def fetchedTags (f : Fetch) : List Nat := (sortByTag (fetchedMap f.keys)).map (·.tag)
+def fetchedTags (f : Fetch) : List Nat := (sortByTag (fetchedMap f.all)).map (·.tag)
 
 def thirtyDays : Nat := 30 * 86400
 
@@ -1076,10 +1095,10 @@ structure Ghost where
 def Ghost.init : Ghost := { since := fun _ => none, earned := fun _ => false }
 
 def sinceAfter (g : Ghost) (f : Fetch) (now : Nat) : Key → Option Nat :=
-  fun k => if k ∈ f.keys then (match g.since k with | some t0 => some t0 | none => some now) else none
+  fun k => if k ∈ f.all then (match g.since k with | some t0 => some t0 | none => some now) else none
 
 def earnedAfter (g : Ghost) (f : Fetch) (now : Nat) : Key → Bool :=
-  fun k => g.earned k || (decide (k ∈ f.keys) &&
+  fun k => g.earned k || (decide (k ∈ f.all) &&
     (match g.since k with | some t0 => decide (now - t0 > thirtyDays) | none => false))
 
 /-- Only refreshes authenticated by a trusted NON-revoked anchor count
@@ -1103,7 +1122,7 @@ def runHistG (P : Params) (cfg : List Key) : Sys × Ghost → List Ev → Sys ×
 of a different key that is pending in the state file. -/
 def NoPendCollision (s : Sys) : Ev → Prop
   | .run (some f) _ _ => ∀ tas, s.disk.state = .ok tas → ∀ ta ∈ tas, ta.st = .addPend →
-      ∀ q ∈ f.keys, q.sep = true → q.tag = ta.key.tag → ta.key ∈ f.keys
+      ∀ q ∈ f.all, q.sep = true → q.tag = ta.key.tag → ta.key ∈ f.all
   | _ => True
 
 def HistNC (P : Params) (cfg : List Key) : Sys → List Ev → Prop
@@ -1126,9 +1145,9 @@ theorem earnedAfter_mono (g : Ghost) (f : Fetch) (now : Nat) (k : Key) (h : g.ea
 /-- the hold-down loop of a fully authenticated run, entry by entry. -/
 theorem holdStep_full (P : Params) (hP : thirtyDays ≤ P.addHold) (cfg : List Key) (g : Ghost) (f : Fetch)
     (now : Nat) (hclock : ∀ k t0, g.since k = some t0 → t0 ≤ now) (ta ta' : TA)
-    (hnc : ta.st = .addPend → ta.key.tag ∈ fetchedTags f → ta.key ∈ f.keys)
+    (hnc : ta.st = .addPend → ta.key.tag ∈ fetchedTags f → ta.key ∈ f.all)
     (hpend : ta.st = .addPend → (∃ t0, g.since ta.key = some t0 ∧ t0 ≤ ta.firstSeen) ∨
-      (ta.firstSeen = now ∧ ta.key ∈ f.keys))
+      (ta.firstSeen = now ∧ ta.key ∈ f.all))
     (htr : isTrusted ta.st = true → ta.key ∈ cfg ∨ g.earned ta.key = true)
     (hs : holdStep P (fetchedTags f) now ta = some ta') :
     (isTrusted ta'.st = true → ta'.key ∈ cfg ∨ earnedAfter g f now ta'.key = true) ∧
@@ -1207,17 +1226,17 @@ for the advanced bookkeeping. -/
 theorem process_full_entries (P : Params) (hP : thirtyDays ≤ P.addHold) (cfg : List Key) (g : Ghost)
     (f : Fetch) (now : Nat) (hclock : ∀ k t0, g.since k = some t0 → t0 ≤ now)
     (cur : List TA) (tomb : List Nat)
-    (h : ∀ ta ∈ cur, EntryOK cfg g ta ∧ (ta.st = .addPend → ta.key.tag ∈ fetchedTags f → ta.key ∈ f.keys)) :
+    (h : ∀ ta ∈ cur, EntryOK cfg g ta ∧ (ta.st = .addPend → ta.key.tag ∈ fetchedTags f → ta.key ∈ f.all)) :
     ∀ ta' ∈ (process P f false now cur tomb).cur,
       (isTrusted ta'.st = true → ta'.key ∈ cfg ∨ earnedAfter g f now ta'.key = true) ∧
       (ta'.st = .addPend → ∃ t0, sinceAfter g f now ta'.key = some t0 ∧ t0 ≤ ta'.firstSeen) := by
   -- after the fetched-key loop
-  have hloop : ∀ ta ∈ ((sortByTag (fetchedMap f.keys)).foldl
-      (procFetched (stage cur tomb f.signers (sortByTag (fetchedMap f.keys))) false now)
+  have hloop : ∀ ta ∈ ((sortByTag (fetchedMap f.all)).foldl
+      (procFetched (stage cur tomb f (sortByTag (fetchedMap f.all))) false now)
       { cur := cur, tomb := tomb }).cur,
-      (ta.st = .addPend → ta.key.tag ∈ fetchedTags f → ta.key ∈ f.keys) ∧
+      (ta.st = .addPend → ta.key.tag ∈ fetchedTags f → ta.key ∈ f.all) ∧
       (ta.st = .addPend → (∃ t0, g.since ta.key = some t0 ∧ t0 ≤ ta.firstSeen) ∨
-        (ta.firstSeen = now ∧ ta.key ∈ f.keys)) ∧
+        (ta.firstSeen = now ∧ ta.key ∈ f.all)) ∧
       (isTrusted ta.st = true → ta.key ∈ cfg ∨ g.earned ta.key = true) := by
     apply foldl_procFetched_all
     · intro ta hta
@@ -1226,12 +1245,12 @@ theorem process_full_entries (P : Params) (hP : thirtyDays ≤ P.addHold) (cfg :
     · intro k _ old _ _ _ _ _
       exact ⟨by simp, by simp, by simp [isTrusted]⟩
     · intro k hk _ _
-      have hin : k ∈ f.keys := (mem_fetchedMap k _ ((mem_sortByTag k _).mp hk)).1
+      have hin : k ∈ f.all := (mem_fetchedMap k _ ((mem_sortByTag k _).mp hk)).1
       exact ⟨fun _ _ => hin, fun _ => Or.inr ⟨rfl, hin⟩, by simp [isTrusted]⟩
   intro ta' hta'
   have hproc : (process P f false now cur tomb).cur = holdDown P (fetchedTags f) now
-      ((sortByTag (fetchedMap f.keys)).foldl
-        (procFetched (stage cur tomb f.signers (sortByTag (fetchedMap f.keys))) false now)
+      ((sortByTag (fetchedMap f.all)).foldl
+        (procFetched (stage cur tomb f (sortByTag (fetchedMap f.all))) false now)
         { cur := cur, tomb := tomb }).cur := by
     unfold process fetchedTags; simp
   rw [hproc] at hta'
